@@ -853,20 +853,36 @@ impl Statement<'_> {
     }
 
     pub(crate) fn generalize_types(&mut self, dtype_variables: &[TypeVariable]) {
-        // The where-locals of a function share the type variables of the function: number
-        // their quantified variables like the function's own ones.
+        // The declared type parameters of a function are quantified first, in the declared
+        // order, so that they can be printed under their declared names. The where-locals of
+        // a function share the type variables of the function: number their quantified
+        // variables like the function's own ones.
         if let Statement::DefineFunction {
+            type_parameters,
             local_variables,
-            fn_type: TypeScheme::Concrete(fn_type),
+            fn_type: fn_type_scheme @ TypeScheme::Concrete(_),
             ..
         } = self
         {
-            let fn_variables = fn_type.type_variables(true);
+            let declared: Vec<TypeVariable> = type_parameters
+                .iter()
+                .map(|(name, _)| TypeVariable::new(*name))
+                .collect();
+
+            let mut fn_variables = declared.clone();
+            if let TypeScheme::Concrete(fn_type) = fn_type_scheme {
+                for v in fn_type.type_variables(true) {
+                    if !fn_variables.contains(&v) {
+                        fn_variables.push(v);
+                    }
+                }
+            }
             for local_variable in local_variables {
                 local_variable
                     .type_scheme
                     .generalize_with_leading(dtype_variables, &fn_variables);
             }
+            fn_type_scheme.generalize_with_leading(dtype_variables, &declared);
         }
 
         self.for_all_type_schemes(&mut |type_: &mut TypeScheme| type_.generalize(dtype_variables));
